@@ -1091,3 +1091,33 @@ func specImportOK(tc *typechecker, impor *ast.Import) bool {
 //@   panics allowed
 //@   requires tc != nil && node != nil
 //@   ensures[C19] old(tc.opts.allowGoStmt)
+
+// ---------------------------------------------------------------------------
+// C16 (and the fast-path half of C06): a show statement may call a macro or a
+// rendered file directly - so that its output reaches the page as written -
+// only when that equals showing its result as a value in the context: in a
+// top-level context of the same format, or Markdown shown in HTML. In every
+// other context the value goes through emitShow, i.e. through the renderer
+// and its contextual escaping, exactly as when it is first assigned to a
+// variable.
+// ---------------------------------------------------------------------------
+
+func specDirectWriteOK(from ast.Format, ctx ast.Context) bool {
+	return ctx <= ast.ContextMarkdown && (from == ast.Format(ctx) || from == ast.FormatMarkdown && ast.Format(ctx) == ast.FormatHTML)
+}
+
+//@ func (*emitter).canOptimizeShowMacro
+//@   props X00 C16 C06
+//@   panics allowed
+//@   ensures[C16] result ==> ctx <= ast.ContextMarkdown
+
+// In the *ast.Show case of emitNodes the second direct call (the rendered
+// file's dummy macro) must be reached only when writing the file's output
+// directly equals showing it as a value. The pinned tree takes it for every
+// render expression (known finding: the existing multi-file template tests
+// expect a text partial rendered inside Markdown to appear unescaped).
+//@ clause (*emitter).emitNodes/case *ast.Show
+//@   props X00 C16 C06
+//@   opt stable github.com/open2b/scriggo/ast.Render github.com/open2b/scriggo/ast.Tree
+//@   panics allowed
+//@   callassert[C16] em.emitCallNode 1 render.Tree != nil && specDirectWriteOK(render.Tree.Format, ctx)
